@@ -67,6 +67,52 @@ def d_icode_pair(t):
         t[k]["icode"] = "A"
 
 
+def d_same_name(t):
+    # residue 1 of chain A gets the name of residue 0: together with d_icode_pair, consecutive residues then differ ONLY by the insertion code
+    for k in range(3, 6):
+        t[k]["resname"] = t[0]["resname"]
+
+
+def d_icode_run(t):
+    # three consecutive residues with the same name, chain and number: icodes none, A, B (the third is new)
+    if any(a["icode"] for a in t[:6]):
+        return False
+    for k in range(3, 6):
+        t[k]["resname"] = t[0]["resname"]
+        t[k]["resseq"] = t[0]["resseq"]
+        t[k]["icode"] = "A"
+    extra = []
+    for k in range(3, 6):
+        b = dict(t[k])
+        b["icode"] = "B"
+        b["z"] = "%.3f" % (float(b["z"]) + 11.0)
+        extra.append(b)
+    t[6:6] = extra
+    _renumber(t)
+
+
+def d_model2_clash(o1, o2):
+    """A second model (far from the first) in which two differently named atoms of one residue are 0.3 A apart with occupancies o1/o2, while the
+    atoms at the same positions of model 1 keep full occupancy and their distance: the verdict must come from model 2's own occupancies."""
+    def f(t):
+        if any(a["model"] != 1 for a in t):
+            return False
+        base = [dict(a) for a in t]
+        for a in base:
+            b = dict(a)
+            b["model"] = 2
+            b["x"] = "%.3f" % (float(a["x"]) + 7.0)
+            t.append(b)
+        n = len(base)
+        i, j = n + 9, n + 10
+        t[i]["occ"], t[j]["occ"] = o1, o2
+        t[j]["x"] = "%.3f" % (float(t[i]["x"]) + 0.3)
+        t[j]["y"], t[j]["z"] = t[i]["y"], t[i]["z"]
+        _renumber(t)
+    f.__name__ = "model2-clash(%s,%s)" % (o1, o2)
+    return f
+
+
 def d_altloc(o1, o2):
     def f(t):
         a = t[1]
@@ -154,6 +200,8 @@ def deviations():
     d += [d_close("1.00", "0.50"), d_close("0.50", "1.00"), d_close("0.50", "0.50"), d_close("0.50", "1.00", False), d_close("1.00", "1.00", False)]
     d += [d_chain3(("0.50", "1.00", "0.50")), d_chain3(("1.00", "0.50", "0.20")), d_chain3(("0.20", "0.50", "1.00"))]
     d += [d_hetatm, d_names, d_noocc]
+    # added after the second wave of seeded changes (C08-c, C08-d): appended so that earlier indices (replay files) stay valid
+    d += [d_same_name, d_icode_run, d_model2_clash("0.30", "0.70"), d_model2_clash("0.70", "0.30")]
     return d
 
 
